@@ -1,50 +1,58 @@
 package main
 
 import (
-	"fmt"
-	"math/big"
-	"os"
-
 	"github.com/zenon-network/go-zenon/chain/nom"
-	"github.com/zenon-network/go-zenon/common/types"
-	"github.com/zenon-network/go-zenon/vm/constants"
-	"github.com/zenon-network/go-zenon/vm/embedded/definition"
+	"fmt"
+	"os"
 
 	"verifmc/internal/ops"
 	"verifmc/internal/vnode"
+	_ "verifmc/props/c02"
 )
 
 func main() {
 	dir, _ := os.MkdirTemp("/dev/shm", "scratch")
 	defer os.RemoveAll(dir)
-	vnode.SmallConsensus(2)
-	constants.MomentumsPerEpoch = 6
-	constants.RewardTimeLimit = 10
-	constants.UpdateMinNumMomentums = 2
 	n := vnode.New(vnode.Options{Dir: dir + "/n"})
 	M := ops.Op{K: "M"}
-	seq := []ops.Op{M, M, M, {K: "M", V: 80}, M, M, M, M, M, M, M, M}
+	seq := []ops.Op{{K: "Call", S: "issue", A: 0, V: 1000}, M, {K: "Mforeign"}, M, M}
 	for _, o := range seq {
-		out := ops.Apply(n, o)
-		st := n.Chain.GetFrontierMomentumStore().GetAccountStore(types.LiquidityContract).Storage()
-		le, _ := definition.GetLastEpochUpdate(st)
-		// minted to liquidity
-		zn := new(big.Int)
-		cnt := 0
-		ac := n.Chain.GetFrontierMomentumStore().GetAccountStore(types.LiquidityContract)
-		for h := uint64(1); h <= ac.Identifier().Height; h++ {
-			b, _ := ac.ByHeight(h)
-			if b.BlockType == nom.BlockTypeContractReceive {
-				for _, d := range b.DescendantBlocks {
-					if d.ToAddress == types.TokenContract {
-						cnt++
-					}
-				}
-			}
+		fmt.Println(o, "->", ops.Apply(n, o), "height", n.Height(), "pool", len(n.PoolBlocks()))
+		for _, b := range n.PoolBlocks() {
+			fmt.Printf("   pool: type %d %v/%d ack %d desc %d\n", b.BlockType, b.Address, b.Height, b.MomentumAcknowledged.Height, len(b.DescendantBlocks))
 		}
-		bal, _ := ac.GetBalance(types.ZnnTokenStandard)
-		fmt.Println(o, "->", out, "height", n.Height(), "liquidity lastEpoch", le.LastEpoch, "mint blocks", cnt, "znn balance", bal, zn)
 	}
-	z, q := constants.LiquidityRewardForEpoch(0)
-	fmt.Println("per epoch", z, q)
+	for h := uint64(2); h <= n.Height(); h++ {
+		d := n.Detailed(h)
+		for _, b := range d.AccountBlocks {
+			fmt.Printf("M%d: type %d %v/%d ack %d desc %d\n", h, b.BlockType, b.Address, b.Height, b.MomentumAcknowledged.Height, len(b.DescendantBlocks))
+		}
+	}
+}
+
+func init() {
+	if os.Getenv("FOLLOW") == "" {
+		return
+	}
+	dir, _ := os.MkdirTemp("/dev/shm", "scratchf")
+	defer os.RemoveAll(dir)
+	n := vnode.New(vnode.Options{Dir: dir + "/n"})
+	M := ops.Op{K: "M"}
+	for _, o := range []ops.Op{{K: "Call", S: "issue", A: 0, V: 1000}, M, {K: "Mforeign"}, M, M} {
+		ops.Apply(n, o)
+	}
+	f := vnode.New(vnode.Options{Dir: dir + "/f", NoPillars: true})
+	fmt.Println(f.InsertChain(vnode.CloneBatch(n.Range(2, 2))))
+	var R *nom.AccountBlock
+	for _, b := range n.Detailed(4).AccountBlocks {
+		if b.BlockType == 5 {
+			R = b
+		}
+	}
+	fmt.Println("gossip R:", fmt.Sprint(f.AddAccountBlocks([]*nom.AccountBlock{vnode.CloneBlock(R)})), "pool", len(f.PoolBlocks()))
+	fmt.Println(f.InsertChain(vnode.CloneBatch(n.Range(3, 3))))
+	fmt.Println("pool after M3", len(f.PoolBlocks()))
+	fmt.Println(f.InsertChain(vnode.CloneBatch(n.Range(4, 4))))
+	fmt.Println("height", f.Height())
+	os.Exit(0)
 }
